@@ -4,6 +4,8 @@
 package fix
 
 import (
+	"bytes"
+	"crypto/ed25519"
 	"crypto/rand"
 	"fmt"
 	"net"
@@ -169,3 +171,46 @@ func (w *World) NewClient(id *Identity, hidden bool, hsTimeout time.Duration) (*
 
 // Describe renders an address.
 func Describe(a *net.UDPAddr) string { return fmt.Sprint(a) }
+
+// ---------------------------------------------------------------------------
+// certificate forge: certificates the issuing API refuses to make
+
+// CertSpec describes a certificate to forge.
+type CertSpec struct {
+	Type      certs.CertificateType
+	Names     []certs.Name
+	Issued    time.Time
+	Expires   time.Time
+	PublicKey [32]byte
+	Parent    [32]byte  // fingerprint named as parent (zero for none)
+	SignSeed  *[32]byte // Ed25519 seed of the signer; nil: garbage signature
+}
+
+// Forge serialises, signs and re-parses a certificate.
+func Forge(s CertSpec) *certs.Certificate {
+	c := &certs.Certificate{Version: certs.Version, Type: s.Type, IssuedAt: s.Issued, ExpiresAt: s.Expires,
+		IDChunk: certs.IDChunk{Blocks: s.Names}, PublicKey: keys.DHPublicKey(s.PublicKey), Parent: s.Parent}
+	raw := must(c.Marshal())
+	tbs := raw[:len(raw)-certs.SignatureLen]
+	if s.SignSeed != nil {
+		sig := ed25519.Sign(ed25519.NewKeyFromSeed(s.SignSeed[:]), tbs)
+		copy(raw[len(tbs):], sig)
+	} else {
+		for i := range raw[len(tbs):] {
+			raw[len(tbs)+i] = byte(0xA0 + i)
+		}
+	}
+	out := new(certs.Certificate)
+	if _, err := out.ReadFrom(bytes.NewReader(raw)); err != nil {
+		panic("fix: forged certificate does not parse: " + err.Error())
+	}
+	return out
+}
+
+// Raw returns the serialisation of a certificate (nil for nil).
+func Raw(c *certs.Certificate) []byte {
+	if c == nil {
+		return nil
+	}
+	return must(c.Marshal())
+}
